@@ -206,17 +206,22 @@ func checkC01(src string, withDir, full bool) core.Outcome {
 			return core.Outcome{Key: c01Key(src, out), Desc: fmt.Sprintf("entry point %s: output differs from canonical input\n%s", e.name, diffDesc(src, out))}
 		}
 	}
-	if withDir {
+	// ParseDir with the candidate as the first (a.go) and as the last (z.go) file of the package, next to
+	// a sibling (b.go) that itself begins and ends with comments
+	for _, candName := range []string{"a.go", "z.go"} {
+		if !withDir {
+			break
+		}
 		var outA, outB string
 		var err error
-		if p := guard(func() { outA, outB, err = parseDirRoundTrip(src) }); p != "" {
+		if p := guard(func() { outA, outB, err = parseDirRoundTrip(src, candName) }); p != "" {
 			return core.Outcome{Key: "panic:ParseDir:" + short(p, 80), Desc: fmt.Sprintf("ParseDir panicked: %s\ninput:\n%s", p, src)}
 		}
 		if err != nil {
 			return core.Outcome{Key: "error:ParseDir", Desc: fmt.Sprintf("ParseDir returned error %v\ninput:\n%s", err, src)}
 		}
 		if outA != src || outB != siblingSrc {
-			desc := fmt.Sprintf("entry point ParseDir (directory holding a.go = input and b.go = sibling):\na.go: %s\nb.go: %s", diffDesc(src, outA), diffDesc(siblingSrc, outB))
+			desc := fmt.Sprintf("entry point ParseDir (directory holding %s = input and b.go = sibling):\n%s: %s\nb.go: %s", candName, candName, diffDesc(src, outA), diffDesc(siblingSrc, outB))
 			if core.IsKnown("C01-F6-parsedir-trailing-comment-migrates") && trailingCommentMigrated(src, outA, outB) {
 				return core.Outcome{Known: "C01-F6-parsedir-trailing-comment-migrates", Desc: desc}
 			}
@@ -232,7 +237,7 @@ const siblingLong = "// Package a.\npackage a\n\nimport (\n\t\"fmt\"\n\n\t\"os\"
 
 // the sibling has code on many lines, so that anything one file does to the line bookkeeping of
 // another file of the package shows
-const siblingSrc = "package a\n\n// other file\nvar other = 1 // t\n\nvar (\n\to1 = []int{\n\t\t1,\n\t\t2,\n\t}\n\to2 = f(\n\t\t3,\n\t)\n)\n\nfunc g() {\n\th(\n\t\t4,\n\t)\n}\n"
+const siblingSrc = "// Copyright of the sibling.\n\n// Package a, sibling file.\npackage a\n\n// other file\nvar other = 1 // t\n\nvar (\n\to1 = []int{\n\t\t1,\n\t\t2,\n\t}\n\to2 = f(\n\t\t3,\n\t)\n)\n\nfunc g() {\n\th(\n\t\t4,\n\t)\n}\n\n// end of the sibling\n"
 
 // trailingCommentMigrated: the input ends in comments after its last token; in the output exactly
 // those comments left a.go and appeared at the start of b.go; nothing else changed.
@@ -258,13 +263,13 @@ func trailingCommentMigrated(src, outA, outB string) bool {
 		stripWS(outA)+stripWS(outB) == stripWS(src)+stripWS(siblingSrc) && stripWS(outA) != stripWS(src)
 }
 
-func parseDirRoundTrip(src string) (outA, outB string, err error) {
+func parseDirRoundTrip(src string, candName string) (outA, outB string, err error) {
 	dir, err := scratchDir("c01dir")
 	if err != nil {
 		return "", "", err
 	}
 	defer os.RemoveAll(dir)
-	if err := os.WriteFile(filepath.Join(dir, "a.go"), []byte(src), 0o644); err != nil {
+	if err := os.WriteFile(filepath.Join(dir, candName), []byte(src), 0o644); err != nil {
 		return "", "", err
 	}
 	if err := os.WriteFile(filepath.Join(dir, "b.go"), []byte(siblingSrc), 0o644); err != nil {
@@ -282,7 +287,7 @@ func parseDirRoundTrip(src string) (outA, outB string, err error) {
 				return "", "", err
 			}
 			switch filepath.Base(name) {
-			case "a.go":
+			case candName:
 				found++
 				outA = s
 			case "b.go":
